@@ -48,6 +48,65 @@ SYMPTOM_OF = {"multi-assign-leftover": "extra", "quote-multi-arg": "extra", "fun
               "valueless-form": "missing", "subgen-scopes-reset": "scope"}
 
 
+def sexp_parse(text):
+    """tiny reader: nested lists of atoms; [] and {} are treated like (); comments dropped"""
+    text = re.sub(r"//[^\n]*", " ", text)
+    toks = re.findall(r"[()\[\]{}]|\"(?:[^\"\\]|\\.)*\"|`[^`]*`|[^\s()\[\]{}]+", text)
+    stack = [[]]
+    for t in toks:
+        if t in "([{":
+            stack.append([])
+        elif t in ")]}":
+            if len(stack) > 1:
+                x = stack.pop()
+                stack[-1].append(x)
+        else:
+            stack[-1].append(t)
+    while len(stack) > 1:
+        x = stack.pop()
+        stack[-1].append(x)
+    return stack[0]
+
+
+def jump_in_reset_region(form, in_reset=False, scopes_since=0):
+    """True when a break/continue sits under a let/letseq/newScope that was opened inside a
+    non-last and/or operand or a cond predicate (where the sub-generator restarted at scopes=0)
+    with no enclosing for loop in between."""
+    if not isinstance(form, list) or not form:
+        return False
+    head = form[0] if isinstance(form[0], str) else None
+    if head in ("break", "continue"):
+        return in_reset and scopes_since > 0
+    if head == "for":
+        return any(jump_in_reset_region(x, False, 0) for x in form[1:])
+    if head in ("fn", "defn", "defmac", "quote"):
+        return any(jump_in_reset_region(x, False, 0) for x in form[1:]) if head != "quote" else False
+    if head in ("and", "or"):
+        ops = form[1:]
+        return any(jump_in_reset_region(x, True, 0) for x in ops[:-1]) or \
+            (bool(ops) and jump_in_reset_region(ops[-1], in_reset, scopes_since))
+    if head == "cond":
+        ops = form[1:]
+        for i, x in enumerate(ops):
+            is_pred = (i % 2 == 0) and i != len(ops) - 1
+            if is_pred:
+                if jump_in_reset_region(x, True, 0):
+                    return True
+            elif jump_in_reset_region(x, in_reset, scopes_since):
+                return True
+        return False
+    if head in ("let", "letseq", "newScope"):
+        return any(jump_in_reset_region(x, in_reset, scopes_since + 1) for x in form[1:])
+    return any(jump_in_reset_region(x, in_reset, scopes_since) for x in form)
+
+
+def has_subgen_reset_jump(prog):
+    try:
+        return any(jump_in_reset_region(f) for f in sexp_parse(prog))
+    except Exception:
+        return False
+
+
 def shape_len(state):
     sh = state.split(";")[1]
     return 0 if sh == "" else len(sh.split(","))
@@ -155,7 +214,7 @@ def main(argv):
         rest = []
         for f in fl:
             fid = None
-            if f["symptom"] == "scope" and scope_mech and re.search(r"\((break|continue)", prog):
+            if f["symptom"] == "scope" and scope_mech and has_subgen_reset_jump(prog):
                 fid = "subgen-scopes-reset"
             else:
                 for k, pat in PAT.items():
